@@ -74,7 +74,8 @@ def build_tensor(spec, route="ref"):
         _populate(t, spec["tree"], d)
         return t
     if route == "fiber":
-        f = nested_fiber(spec["tree"], d, spec["shape"], default)
+        # (without a declared shape the fibers carry none either, so the ranks really estimate theirs)
+        f = nested_fiber(spec["tree"], d, _shape(spec), default)
         return Tensor.fromFiber(rank_ids, f, shape=_shape(spec), default=default)
     if route == "uncompressed":
         nest = model.dense(model.content(spec), spec["shape"], default)
